@@ -5,7 +5,7 @@
   loop reads the written slots `deque[..count]` in STORAGE order, which is a permutation of
   the chronological window; the sum of deviations is permutation-invariant.
 -/
-import TaRs.Lemmas.Core.MeanAbsoluteDeviation
+import TaRs.Lemmas.MeanAbsoluteDeviation
 import TaRs.Lemmas.Ring
 import TaRs.Lemmas.XLemmas
 import TaRs.Lemmas.Machine
@@ -111,38 +111,39 @@ theorem step {n : Nat} {s : MeanAbsoluteDeviation (X K)} {h : List K} (i : Inv n
   have e1 := SimpleMovingAverage.lastN_sum_push p hn h x
   refine ⟨{ period := p, index := if ix + 1 < p then ix + 1 else 0, count := if c < p then c + 1 else c,
             sum := X.fin (lastN p (h ++ [x])).sum, deque := d.setIfInBounds ix (X.fin x) }, ?_, ⟨rfl, hsmall, ?_, rfl⟩⟩
-  · unfold next
+  · -- the slot under the cursor: the evicted (oldest) value once the window is full
+    have hold : d[ix]? = some (X.fin (if h.length < p then (0 : K) else h[h.length - p]?.getD 0)) := by
+      rw [hcur]
+      by_cases hl : h.length < p
+      · simp [hl]
+      · simp only [hl, if_false]
+        have : h.length - p < h.length := by omega
+        simp [List.getElem?_map, List.getElem?_eq_getElem this]
+    rw [next_eq _ _ _ (inv_wf i) hold]
+    unfold madOut
+    simp only [List.drop_zero, Nat.sub_zero]
     by_cases c2 : c < p
     · -- warming up: nothing is evicted
       have hl : h.length < p := by omega
-      simp only [c2, hl, if_true, sub_zero, Array.toList_setIfInBounds] at hcK hlen hfold e1
+      simp only [c2, hl, if_true, sub_zero, Array.toList_setIfInBounds] at hcK hlen hfold e1 ⊢
       have hmean : (lastN p (h ++ [x])).sum / ((c : K) + 1) = mean (lastN p (h ++ [x])) := by
         simp [mean, hlen]
       have hmad : mad (lastN p (h ++ [x])) =
           ((lastN p (h ++ [x])).map (fun k => |k - mean (lastN p (h ++ [x]))|)).sum / ((c : K) + 1) := by
         simp [mad, hlen]
       push_cast at hcK
-      by_cases c1 : ix + 1 < p <;>
-        simp (disch := first | omega | (simp only [Array.size_setIfInBounds]; omega))
-          [setIndex_eq, uadd_eq, slice_eq, c1, c2, hsum, ← e1, hmean, hfold, hmad, X.div_fin _ _ hcK]
-    · -- full window: the slot under the cursor holds the evicted (oldest) value
+      simp [hsum, ← e1, hmean, hfold, hmad, X.div_fin _ _ hcK]
+    · -- full window
       have hl : ¬ h.length < p := by omega
-      have hold' : d[ix]'hix = X.fin (h[h.length - p]?.getD 0) := by
-        have := hcur
-        rw [Array.getElem?_eq_getElem hix] at this
-        have hlt : h.length - p < h.length := by omega
-        simpa [hl, List.getElem?_map, List.getElem?_eq_getElem hlt] using this
-      simp only [c2, hl, if_false, Array.toList_setIfInBounds] at hcK hlen hfold e1
-      generalize h[h.length - p]?.getD 0 = ev at hold' e1
+      simp only [c2, hl, if_false, Array.toList_setIfInBounds] at hcK hlen hfold e1 ⊢
+      generalize h[h.length - p]?.getD 0 = ev at e1 ⊢
       have e1' : (lastN p h).sum + x - ev = (lastN p (h ++ [x])).sum := by rw [e1]; ring
       have hmean : (lastN p (h ++ [x])).sum / (c : K) = mean (lastN p (h ++ [x])) := by
         simp [mean, hlen]
       have hmad : mad (lastN p (h ++ [x])) =
           ((lastN p (h ++ [x])).map (fun k => |k - mean (lastN p (h ++ [x]))|)).sum / (c : K) := by
         simp [mad, hlen]
-      by_cases c1 : ix + 1 < p <;>
-        simp (disch := first | omega | (simp only [Array.size_setIfInBounds]; omega))
-          [index_eq, setIndex_eq, uadd_eq, slice_eq, c1, c2, hsum, hold', e1', hmean, hfold, hmad, X.div_fin _ _ hcK]
+      simp [hsum, e1', hmean, hfold, hmad, X.div_fin _ _ hcK]
   · simpa using hpush
 
 /-- C01 for MAD at `X K`: every output is the mean absolute deviation of exactly the last
